@@ -679,9 +679,9 @@ class KmipEngine(object):
         elif attr_name == 'Object Type':
             return managed_object.object_type
         elif attr_name == 'Cryptographic Algorithm':
-            return managed_object.cryptographic_algorithm
+            return getattr(managed_object, 'cryptographic_algorithm', None)
         elif attr_name == 'Cryptographic Length':
-            return managed_object.cryptographic_length
+            return getattr(managed_object, 'cryptographic_length', None)
         elif attr_name == 'Cryptographic Parameters':
             return None
         elif attr_name == 'Cryptographic Domain Parameters':
@@ -932,7 +932,13 @@ class KmipEngine(object):
             elif attribute_name == "Sensitive":
                 field = "sensitive"
 
-            if field:
+            if field and not hasattr(managed_object, field):
+                raise exceptions.InvalidField(
+                    "The {0} attribute cannot be set on this object.".format(
+                        attribute_name
+                    )
+                )
+            elif field:
                 existing_value = getattr(managed_object, field)
                 if existing_value:
                     if existing_value != value:
